@@ -675,3 +675,20 @@ Proof.
   rewrite !polls_app. cbn [polls]. nia.
 Qed.
 
+(* right shift by any count: the gap is bounded by the operand's bit length, not by the count *)
+Lemma gap_bound_rshift_n_lemma : forall small l bits n, gap (rshift_n_trace small l bits n) <= bits + 1.
+Proof.
+  intros small l bits n. unfold rshift_n_trace. destruct small.
+  - rewrite gap_pollfree by (apply pollfree_repeat; cbn; auto).
+    rewrite work_repeat. cbn [work]. rewrite N2Nat.id. lia.
+  - unfold gap.
+    destruct (repeat_shape (bits + 1) (repeat_trace (N.to_nat l) [Poll; Work 1])
+                (fun cur Hc => ltac:(destruct (polled_loop (bits + 1) 1 (N.to_nat l) [Work 1] cur) as [A E]; cbn; auto; try lia;
+                                     split; [exact A | lia]))
+                (N.to_nat (N.min n bits)) 0) as [M E]; [lia|].
+    apply gap_aux_le; [exact M | exact E | lia].
+Qed.
+
+Lemma work_rshift_n_small : forall bits n, work (rshift_n_trace true 1 bits n) = N.min n bits.
+Proof. intros. unfold rshift_n_trace. rewrite work_repeat. cbn [work]. rewrite N2Nat.id. lia. Qed.
+
